@@ -145,7 +145,27 @@ def run_route(route, ver, t, o):
         return cls(allow_custom=False, **o)
 
 
-def judge(ctx, ver, t, o, label, where, routes, is_base=False):
+def lenient_history(ver, t, o):
+    """Histories matter: the same (faulted) input is first used with customisation allowed -- through parse and the
+    constructor -- so that anything the library remembers from a lenient call is in place when the strict call comes."""
+    import stix2
+    for fn in (lambda: stix2.parse(json.loads(json.dumps(o)), allow_custom=True, version=ver),
+               lambda: cls_for(ver, t)(allow_custom=True, **json.loads(json.dumps(o)))):
+        try:
+            with warnings.catch_warnings():
+                warnings.simplefilter("ignore")
+                fn()
+        except Exception:
+            pass
+
+
+def judge(ctx, ver, t, o, label, where, routes, is_base=False, history=False):
+    if history:
+        try:
+            lenient_history(ver, t, o)
+            ctx.count("lenient_histories")
+        except Exception:
+            pass
     for route in routes:
         ctx.ev()
         try:
@@ -217,7 +237,7 @@ def wl_bases(ctx, rng, i):
         parts = label.split("|")
         generic = len(parts) > 2 and parts[2].startswith("kind:")
         routes = ["parse-text"] if (generic and ctx.tier == "quick") else all_routes
-        judge(ctx, ver, t, oo, label, where, routes)
+        judge(ctx, ver, t, oo, label, where, routes, history=(not generic and n % 2 == 0))
         ctx.nontrivial(ver, t, label)
         ctx.see("fault kinds", parts[-1] if not generic else "wrong-json-kind")
         ctx.count("faults")
@@ -269,7 +289,77 @@ def wl_nearvalid(ctx, rng, i):
         ctx.nontrivial(ver, t, labs)
 
 
+def ts_slots():
+    out = []
+    for ver in VERSIONS:
+        m = M.model(ver)
+        for t, d in sorted(m.types.items()):
+            if d["cat"] == "sco" and ver == "2.0":
+                continue
+            for p in d["props"]:
+                if p["k"] == "ts":
+                    out.append((ver, t, p["name"]))
+    return out
+
+
+TS_SLOTS = ts_slots()
+
+
+def wl_native_timestamps(ctx, rng, i):
+    """Python-native timestamp values with foreign precision metadata: STIXdatetime objects taken from objects of the other
+    spec version or built directly with every precision/constraint combination, plain datetimes in odd offsets, dates --
+    handed to strict constructors.  Whatever is emitted must carry the digits the receiving property requires."""
+    import datetime as dt
+    import stix2
+    import stix2.utils as U
+    ver, t, prop = TS_SLOTS[i % len(TS_SLOTS)]
+    g = ObjGen(rng, ver, hostile=False, ts_max_digits=6, openvocab_custom=False, extensions=False)
+    o = g.make(t, ("only", [prop]), granular=False)
+    if prop not in o or validator.validate(o, ver):
+        ctx.skip("slot not populated")
+        return
+    cls = cls_for(ver, t)
+    from ..oracles import ts as tsor
+    base_us = tsor.text_us(o[prop])
+    naive = dt.datetime(1, 1, 1) + dt.timedelta(microseconds=base_us - base_us % 1000000)
+    variants = []
+    for us in (0, 1, 100000, 123000, 123456, 999999):
+        d = naive.replace(microsecond=us, tzinfo=dt.timezone.utc)
+        for p in ("any", "second", "millisecond"):
+            for c in ("exact", "min"):
+                variants.append(("STIXdatetime(%s/%s,us=%d)" % (p, c, us), U.STIXdatetime(d, precision=p, precision_constraint=c)))
+        variants.append(("datetime(us=%d,+05:45)" % us, d.astimezone(dt.timezone(dt.timedelta(minutes=345)))))
+    # a timestamp object lifted from an object of the other spec version
+    other = stix2.v21.Identity(name="n", created="2020-01-01T00:00:00.123456Z", modified="2020-01-01T00:00:00.123456Z") if ver == "2.0" else \
+        stix2.v20.Identity(name="n", identity_class="individual", created="2020-01-01T00:00:00.123Z", modified="2020-01-01T00:00:00.123Z")
+    variants.append(("created of a %s object" % ("2.1" if ver == "2.0" else "2.0"), other["created"]))
+    for label, val in variants:
+        kw = dict(o)
+        kw[prop] = val
+        # keep ordered pairs ordered: give the partner the same value
+        for c in M.model(ver).types[t]["constraints"]:
+            if c[0] in ("le", "lt") and prop in c[1:]:
+                kw.pop(c[2] if c[1] == prop else c[1], None) if False else None
+        ctx.ev()
+        ctx.count("native_timestamp_cases")
+        try:
+            with warnings.catch_warnings():
+                warnings.simplefilter("ignore")
+                obj = cls(allow_custom=False, **kw)
+                out = json.loads(obj.serialize())
+        except Exception:
+            ctx.count("rejected")
+            continue
+        ctx.count("accepted_outputs_validated")
+        issues = [x for x in validator.validate(out, ver) if x[0] in ("timestamp-form", "timestamp-digits")]
+        ctx.nontrivial(ver, t, prop, label.split("(")[0])
+        if issues:
+            ctx.violation(classify(issues[0], out), "%s %s.%s given %s emitted %r: %s" % (ver, t, prop, label, out.get(prop), issues[0][2][:120]),
+                          {"version": ver, "type": t, "property": prop, "value_given": label, "output": out, "issues": issues[:3]})
+
+
 WORKLOADS = [
+    Workload("native-timestamps", wl_native_timestamps, quick=lambda: len(TS_SLOTS), thorough=lambda: len(TS_SLOTS) * 4),
     Workload("bases", wl_bases, quick=lambda: len(BASES) * 2, thorough=lambda: len(BASES) * 8, exhaustive=True),
     Workload("nearvalid", wl_nearvalid, quick=300, thorough=20000),
 ]
